@@ -294,6 +294,9 @@ pub struct Server {
     /// Is the server broken? We'll remote it from the pool if so.
     bad: bool,
 
+    /// The server answered the last `query()` with an ErrorResponse.
+    query_failed: bool,
+
     /// If server connection requires reset statements before checkin
     cleanup_state: CleanupState,
 
@@ -816,6 +819,7 @@ impl Server {
                         in_copy_mode: false,
                         data_available: false,
                         bad: false,
+                        query_failed: false,
                         needs_checkin_cleanup: false,
                         cleanup_state: CleanupState::new(),
                         client_server_map,
@@ -986,6 +990,8 @@ impl Server {
 
                 // ErrorResponse
                 'E' => {
+                    self.query_failed = true;
+
                     if self.in_copy_mode {
                         self.in_copy_mode = false;
                     }
@@ -1363,6 +1369,13 @@ impl Server {
 
         self.cleanup_state.reset();
 
+        // The statements run as one transaction: a value the server refuses takes the other ones
+        // back with it, and the connection keeps what the previous client left.
+        if res.is_ok() && self.query_failed {
+            self.mark_bad("the server refused a parameter of the client");
+            return Err(Error::ServerError);
+        }
+
         res
     }
 
@@ -1396,6 +1409,7 @@ impl Server {
 
         let query = simple_query(query);
 
+        self.query_failed = false;
         self.send(&query).await?;
 
         loop {
